@@ -42,3 +42,12 @@ Theorem C15_redelivered_request_served : forall c e r s,
              o_w s' = do_store c (o_w s) (bump (set_state (set_obj r ODeleted) RSDataDeleted)).
 Proof. exact delete_handler_ff_default. Qed.
 Print Assumptions C15_redelivered_request_served.
+
+(* ... and the whole iteration of the delete consumer on it: the request is acknowledged (the committed position moves past it)
+   and the process stays in its consume loop — it moves on to the next request *)
+Theorem C15_request_acknowledged : forall c idx e r s,
+  ff s -> ec_del c = 0 -> lookup_run (o_w s) (e_run e) = Some r ->
+  exists s', after_lag c 1 EDelete idx e s = (Ok PRun, s') /\ ff s' /\
+             o_w s' = put_cursor (do_store c (o_w s) (bump (set_state (set_obj r ODeleted) RSDataDeleted))) EDelete (S idx).
+Proof. exact delete_iteration_ff. Qed.
+Print Assumptions C15_request_acknowledged.
